@@ -64,6 +64,13 @@ def _mk_jobs(ctx):
         jobs.append(common.igate_job("big%d" % i, {"big.h": common.big_header(rng.next(), n)}, ["big.h"], be, opts=opts))
     lj = common.igate_job("c", libs["c"]["files"], libs["c"]["main"], "-python-native", srcdir=libs["c"]["srcdir"], incs=libs["c"]["incs"])
     jobs.append(lj)
+    # one of the project's own headers, everything exported: real code, large outputs
+    own = os.path.join(build.REPO, "src", "interrogatedb", "interrogateType.h")
+    if os.path.exists(own):
+        with open(own, "rb") as f:
+            data = f.read().decode("latin-1")
+        incs = [os.path.join(build.REPO, "src", x) for x in ("interrogatedb", "dtoolutil", "dtoolbase")]
+        jobs.append(common.igate_job("own-type", {"interrogateType.h": data}, ["interrogateType.h"], "-python-native", opts=["-promiscuous"], incs=incs))
     return jobs, libs
 
 
